@@ -38,9 +38,10 @@ MUT = {
     "m16-fallback-to-only-waiter": ("C16", "mutation", "a reply with an unknown request id is handed to the only waiting call", [
         ("\tw, ok = c.awaitingReply[requestID]\n\tc.sess.Unlock()\n\tif !ok {\n\t\tc.log.Println(\"Received\", msg.MessageType(), requestID,",
          "\tw, ok = c.awaitingReply[requestID]\n\tif !ok && len(c.awaitingReply) == 1 {\n\t\tfor _, w = range c.awaitingReply {\n\t\t\tok = true\n\t\t}\n\t}\n\tc.sess.Unlock()\n\tif !ok {\n\t\tc.log.Println(\"Received\", msg.MessageType(), requestID,", 1)]),
-    "m16-progress-after-return": ("C16", "mutation", "Call waits for the progress goroutine only when it got a reply (not on cancellation / timeout)", [
+    "m16-progress-after-return": ("C16", "mutation", "progress channel buffered and Call waits for the progress goroutine only when it got a reply: queued progressive results reach the handler after a cancelled / failed Call has returned", [
+        ("\t\tprogChan = make(chan *wamp.Result)\n", "\t\tprogChan = make(chan *wamp.Result, 16)\n", 2),
         ("\tif progcb != nil {\n\t\tclose(progChan)\n\t\t<-progDone\n\t}\n\n\tif err != nil {\n\t\treturn nil, err\n\t}\n\n\tswitch msg := msg.(type) {\n\tcase *wamp.Result:\n\t\tabortMsg, err := c.prepareCallResultMessage(msg)",
-         "\tif progcb != nil {\n\t\tclose(progChan)\n\t\tif err == nil {\n\t\t\t<-progDone\n\t\t}\n\t}\n\n\tif err != nil {\n\t\treturn nil, err\n\t}\n\n\tswitch msg := msg.(type) {\n\tcase *wamp.Result:\n\t\tabortMsg, err := c.prepareCallResultMessage(msg)", 2)]),
+         "\tif progcb != nil {\n\t\tclose(progChan)\n\t\tif _, failed := msg.(*wamp.Error); !failed && err == nil {\n\t\t\t<-progDone\n\t\t}\n\t}\n\n\tif err != nil {\n\t\treturn nil, err\n\t}\n\n\tswitch msg := msg.(type) {\n\tcase *wamp.Result:\n\t\tabortMsg, err := c.prepareCallResultMessage(msg)", 2)]),
     "m16-cancel-mode-hardcoded": ("C16", "mutation", "CANCEL always sent with mode killnowait", [
         ("Options: wamp.SetOption(nil, wamp.OptMode, c.cancelMode),", "Options: wamp.SetOption(nil, wamp.OptMode, wamp.CancelModeKillNoWait),", 1)]),
     "m16-stale-invocation-rerun": ("C16", "mutation", "an INVOCATION with an OLDER request id is no longer ignored (only the latest id is)", [
@@ -100,6 +101,10 @@ def run_one(name):
         return dict(name=name, error="worktree: " + out[-300:])
     try:
         for p in PATCHES:
+            # already in /repo once the lead has committed the fix
+            rc, _ = sh("git apply --reverse --check %s/fixes/%s.patch" % (VERIF, p), cwd=wt)
+            if rc == 0:
+                continue
             rc, out = sh("git apply %s/fixes/%s.patch" % (VERIF, p), cwd=wt)
             if rc != 0:
                 return dict(name=name, error="patch %s: %s" % (p, out[-300:]))
